@@ -231,7 +231,7 @@ pub fn judge_world(w: &World) -> Vec<Violation> {
 
 pub fn run(ctx: &Ctx) -> Report {
     let mut rep = Report::new(
-        "per base world (setup, registration, a real login, an unknown-user login, a second real login; interleaved; label-derived tapes): all 4^5 = 1024 assignments of {none, native, bincode, JSON} to the five persistence points (server setup before every server operation, password file, client registration state, client login state, server login state) — complete on 4 suites in quick (64 seeded schedules on the other 16), complete on all 20 in thorough — plus setup reload before the k-th server operation only (k x 3 codecs) and 8 worlds of chained permanent Reload ops; direct and SimHsm-held server keys. Oracle: the complete event log (all messages, results, keys, states) equals the uninterrupted run's. distinct = (suite, schedule) pairs that actually reloaded something",
+        "per base world (setup, registration, a real login, an unknown-user login, a second real login; interleaved; label-derived tapes): all 4^5 = 1024 assignments of {none, native, bincode, JSON} to the five persistence points (server setup before every server operation, password file, client registration state, client login state, server login state) — complete on 4 suites in quick (64 seeded schedules on the other 16), complete on all 20 in thorough — plus setup reload before the k-th server operation only (k x 3 codecs), 8 worlds of chained permanent Reload ops, and seeded random-walk workloads with random crash/reload ops and codec deliveries compared with the same walk without them; direct and SimHsm-held server keys. Oracle: the complete event log (all messages, results, keys, states) equals the uninterrupted run's. distinct = (suite, schedule) pairs that actually reloaded something",
     );
     rep.exhaustive = Some(true);
     let suites: Vec<&'static dyn SuiteOps> = SIM_SUITES.to_vec();
@@ -336,6 +336,33 @@ pub fn run(ctx: &Ctx) -> Report {
         }
         if let Some(s) = o.sample {
             rep.sample(s);
+        }
+    }
+    // crash points inside unstructured workloads: seeded random walks (several users,
+    // re-registrations, concurrent logins, deviations) with random crash/reload ops and
+    // codec deliveries, compared with the same walk run without any of them
+    let per_walk = ctx.pick(6, 200);
+    let wjobs: Vec<(usize, u64)> = (0..suites.len()).flat_map(|si| (0..per_walk).map(move |k| (si, k as u64))).collect();
+    let wouts = par_map(wjobs.len(), ctx.threads, |i| {
+        let (si, k) = wjobs[i];
+        let w = crate::checks::c07::gen_chaos(seed, 1_000 + k, suites[si], 60 + (k as usize % 4) * 20);
+        let base = run_world(&baseline_of(&w));
+        let r = run_world(&w);
+        let vs = compare(&w, &r, &base);
+        (w, vs, r.events.len() as u64, r.stats)
+    });
+    for (w, vs, steps, stats) in wouts {
+        rep.evaluations += 1;
+        rep.worlds += 1;
+        rep.steps += steps;
+        rep.stats.merge(&stats);
+        rep.shapes.insert(fnv(format!("{}|walk|{}", w.suite, w.index).as_bytes()));
+        for v in vs {
+            let opname = w.ops.get(v.op).map(|o| o.name()).unwrap_or("?");
+            let sig = format!("{}:{}:{}:walk", v.clause, opname, w.suite);
+            if rep.found.iter().filter(|x| x.clause == v.clause).count() < 4 {
+                rep.add_found(Found { clause: v.clause.into(), detail: v.detail.clone(), signature: sig, case: Case::World(w.clone()) });
+            }
         }
     }
     for s in &suites {
